@@ -128,7 +128,7 @@ theorem doneP_congr {now : Int} {d d' : Dt} (h1 : d'.fixed = d.fixed) (h2 : d'.s
     rw [← h]
     simp [canBeTriggered, isExpired, isInEffect, isTriggered, h1, h2, h3, h4, h5]
 
-theorem stepRel_RD (now : Int) : StepRel now (fun t => t ≠ 0) (fun d => 0 < d.entry) (RD now) where
+theorem stepRel_RD (now : Int) : StepRel now (fun t => 0 < t) (fun d => 0 < d.entry) (RD now) where
   refl := fun d => ⟨rfl, fun _ h => h, Nat.le_refl _, fun _ => rfl, id, fun _ h => h, rfl⟩
   trans := by
     intro a b c ⟨h1, h2, h3, h4, h5, h6, h7⟩ ⟨g1, g2, g3, g4, g5, g6, g7⟩
@@ -146,7 +146,9 @@ theorem stepRel_RD (now : Int) : StepRel now (fun t => t ≠ 0) (fun d => 0 < d.
     apply rd_same (d' := trigSelf t d) hr rfl (fun _ h => h) (by simp [trigSelf, noteTriggered, markTriggered]) id
     intro _
     left
-    by_cases h0 : d.trigger = 0 <;> simp [trigSelf, noteTriggered, markTriggered, h0, ht]
+    have ht' : (0 : Int) < t := ht
+    by_cases h0 : d.trigger = 0 <;> simp [trigSelf, noteTriggered, markTriggered, h0]
+    omega
   startT := by
     intro d hc _ _ _
     have : d.entry ≤ max d.start d.entry := Int.le_max_right _ _
@@ -251,7 +253,7 @@ theorem newer_ids {l : List Dt} (hn : Newer l) {d : Dt} (hd : d ∈ l) {c : Nat}
     · exact List.mem_cons_of_mem _ (ih hn.2 hd')
 
 /-- What a `TriggerDowntime` call keeps. -/
-theorem wfl_triggerDt {now t : Int} (ht : t ≠ 0) (F : Nat) (id : Nat) (l : List Dt) (hw : WFL l) :
+theorem wfl_triggerDt {now t : Int} (ht : 0 < t) (F : Nat) (id : Nat) (l : List Dt) (hw : WFL l) :
     WFL (triggerDt F now t id l) ∧ Both (RD now) l (triggerDt F now t id l) ∧
       idsOf (triggerDt F now t id l) = idsOf l := by
   obtain ⟨hnd, hn, he⟩ := hw
@@ -260,7 +262,7 @@ theorem wfl_triggerDt {now t : Int} (ht : t ≠ 0) (F : Nat) (id : Nat) (l : Lis
   refine ⟨⟨by rw [hids]; exact hnd, ?_, allc_of_both (stepRel_RD now).ctx hb he⟩, hb, hids⟩
   exact newer_of_both (both_triggerDt (trigRel_RSh now) F t trivial id l (allc_trivial _)) hids hnd hn
 
-theorem wfl_cascade {now t : Int} (ht : t ≠ 0) (F : Nat) (cs : List Nat) (l : List Dt) (hw : WFL l) :
+theorem wfl_cascade {now t : Int} (ht : 0 < t) (F : Nat) (cs : List Nat) (l : List Dt) (hw : WFL l) :
     WFL (cs.foldl (fun acc c => triggerDt F now t c acc) l) ∧
       Both (RD now) l (cs.foldl (fun acc c => triggerDt F now t c acc) l) ∧
       idsOf (cs.foldl (fun acc c => triggerDt F now t c acc) l) = idsOf l := by
@@ -272,11 +274,11 @@ theorem wfl_cascade {now t : Int} (ht : t ≠ 0) (F : Nat) (cs : List Nat) (l : 
     exact ⟨w2, both_trans (stepRel_RD now).trans b1 b2, i2.trans i1⟩
 
 /-- After the cascade over `cs`, every named downtime that exists is triggered or untriggerable. -/
-theorem cascade_list (n : Nat) (now t : Int) (ht : t ≠ 0) (cs : List Nat) (l1 : List Dt)
+theorem cascade_list (n : Nat) (now t : Int) (ht : 0 < t) (cs : List Nat) (l1 : List Dt)
     (c : Nat) (hcm : c ∈ cs) (x : Dt) (hx : x ∈ l1) (hl : live c x = true) :
     ∃ x' ∈ cs.foldl (fun acc k => triggerDt (n + 1) now t k acc) l1, Done now c x' := by
   have tr := trigRel_RC now t
-  have htk : (fun t' => t' = t ∧ t ≠ 0) t := ⟨rfl, ht⟩
+  have htk : (fun t' => t' = t ∧ 0 < t) t := ⟨rfl, ht⟩
   obtain ⟨pre, post, hsplit⟩ := List.append_of_mem hcm
   rw [hsplit, List.foldl_append, List.foldl_cons]
   have h1 := both_cascade tr (n + 1) t htk pre l1 (allc_trivial _)
@@ -290,7 +292,7 @@ theorem cascade_list (n : Nat) (now t : Int) (ht : t ≠ 0) (cs : List Nat) (l1 
 /-- The cascade part shared by `TriggerDowntime` and the start of a fixed downtime: after the root `d`
     (name `id`) has been updated by `f` (which bumps only its own counters), the cascade over its
     `triggers` with enough fuel leaves the list closed. -/
-theorem closed_root {now t : Int} (ht : t ≠ 0) (F : Nat)
+theorem closed_root {now t : Int} (ht : 0 < t) (F : Nat)
     (ihF : ∀ (id : Nat) (l : List Dt), WFL l → rk (idsOf l) id ≤ F → Closed now l (triggerDt F now t id l))
     (id : Nat) (l : List Dt) (hw : WFL l) (d : Dt) (hf : findDt l id = some d)
     (f : Dt → Dt) (hfid : ∀ x, (f x).id = x.id) (hfb : Both (RD now) l (updateDt l id f))
@@ -364,7 +366,7 @@ theorem rsh_startSelfG (now : Int) (d : Dt) : RSh d (startSelfG now d) := by
   unfold startSelfG; split <;> exact ⟨rfl, rfl⟩
 
 /-- **Closure of one `TriggerDowntime` call with enough fuel.** -/
-theorem closed_triggerDt {now t : Int} (ht : t ≠ 0) (F : Nat) :
+theorem closed_triggerDt {now t : Int} (ht : 0 < t) (F : Nat) :
     ∀ (id : Nat) (l : List Dt), WFL l → rk (idsOf l) id ≤ F → Closed now l (triggerDt F now t id l) := by
   induction F with
   | zero => intro id l hw _; simp only [triggerDt]; exact closed_refl now hw.1
@@ -396,7 +398,7 @@ theorem closed_startAt {now : Int} (F : Nat) (l : List Dt) (id : Nat) (hw : WFL 
     · obtain ⟨hdm, hdl⟩ := mem_of_findDt hf
       rename_i hg
       simp at hg
-      have ht : max d.start d.entry ≠ 0 := by
+      have ht : 0 < max d.start d.entry := by
         have h1 := hw.2.2 d hdm
         have : d.entry ≤ max d.start d.entry := Int.le_max_right _ _
         omega
@@ -462,7 +464,7 @@ theorem len_of_ids {l l' : List Dt} (h : idsOf l' = idsOf l) : l'.length = l.len
   have := congrArg List.length h
   simpa [idsOf] using this
 
-theorem step_triggerAll {now t : Int} (ht : t ≠ 0) (l : List Dt) (hw : WFL l) :
+theorem step_triggerAll {now t : Int} (ht : 0 < t) (l : List Dt) (hw : WFL l) :
     Closed now l (triggerAll now t l) ∧ Both (RD now) l (triggerAll now t l) ∧ WFL (triggerAll now t l) := by
   unfold triggerAll
   have := closed_foldl (now := now) (fun acc => WFL acc ∧ idsOf acc = idsOf l)
@@ -542,7 +544,7 @@ theorem step_cascade (st : St) (op : Op) (hw : WFL st.dts) (hl : 0 < st.lastStat
     · exact ⟨closed_refl now hw.1, hw⟩
     · simp only
       split
-      · have hte : te ≠ 0 := by have := hop.1; omega
+      · have hte : 0 < te := by have := hop.1; omega
         have := step_triggerAll (now := now) hte st.dts hw
         exact ⟨this.1, this.2.2⟩
       · exact ⟨closed_refl now hw.1, hw⟩
@@ -597,7 +599,7 @@ theorem step_cascade (st : St) (op : Op) (hw : WFL st.dts) (hl : 0 < st.lastStat
           WFL (startFlexible st now (newDt st p now) (st.dts ++ [newDt st p now])) := by
         unfold startFlexible
         split
-        · have ht : max (max (newDt st p now).start (newDt st p now).entry) st.lastStateChange ≠ 0 := by
+        · have ht : 0 < max (max (newDt st p now).start (newDt st p now).entry) st.lastStateChange := by
             have : st.lastStateChange ≤ max (max (newDt st p now).start (newDt st p now).entry) st.lastStateChange :=
               Int.le_max_right _ _
             omega
@@ -713,13 +715,13 @@ theorem link_step (st : St) (op : Op) (hnd : (idsOf st.dts).Nodup) (he : AllC (f
     LinkInv (step st op).1.dts := by
   have hpm := pw_stepRM st op hnd
   -- RD along the operation
-  have hopT : OpT st (fun t => t ≠ 0) (fun d => 0 < d.entry) op := by
+  have hopT : OpT st (fun t => 0 < t) (fun d => 0 < d.entry) op := by
     cases op with
     | add p now =>
       refine ⟨by simpa [newDt, Op.now] using hnow, fun _ => ?_⟩
       have : st.lastStateChange ≤ max (max p.start now) st.lastStateChange := Int.le_max_right _ _
       omega
-    | result s te now => have := hop.1; show te ≠ 0; omega
+    | result s te now => have := hop.1; show 0 < te; omega
     | pump now f => trivial
     | remove id u now => trivial
     | setPaused b now => trivial
